@@ -315,6 +315,12 @@ def GzHeader.bytes (h : GzHeader) : Bytes :=
 def gzipMember (h : GzHeader) (stream data : Bytes) : Bytes :=
   h.bytes ++ (stream ++ (le32 (crc32 data) ++ le32 (data.length % 4294967296)))
 
+/-- a gzip FILE (RFC 1952 §2.2): the members (header, DEFLATE stream, the data the stream stands for) "simply appear
+    one after another in the file, with no additional information before, between, or after them" -/
+def gzipFile : List (GzHeader × Bytes × Bytes) → Bytes
+  | [] => []
+  | (h, stream, data) :: ms => gzipMember h stream data ++ gzipFile ms
+
 /-- a zlib stream: CMF = 8 + 16·cinfo, FLG with FLEVEL `level`, no preset dictionary, FCHECK making the pair a
     multiple of 31 -/
 def zlibStream (cinfo level : Nat) (stream data : Bytes) : Bytes :=
